@@ -172,7 +172,7 @@ def c19_1(ctx: Ctx) -> RuleResult:
                     res.add(f, f.node, "a delegating is_supported passes the method name on unchanged (the named-plug-in form is resolved by the lookup it delegates to)", ok2,
                             "" if ok2 else f"the lookup is asked for `{show(args[0], 70) if args else '?'}` instead of the requested name: `plugin/method` requests are answered by discovery",
                             construct=f"{f.cls.name if f.cls else ''}.is_supported: delegated name")
-    if n_keys < 4:
+    if n_keys < 4 and all(i.ok for i in res.instances):
         raise AnalysisError(f"only {n_keys} registry key uses found")
     res.floor = 8
     return res
